@@ -393,7 +393,7 @@ def gen(rnd, st):
       st["down"][p] = dn
       return "PortMod", dict(xid=x, kind="set", p=p, dn=dn)
     if c < 0.85:
-      return "PortMod", dict(xid=x, kind="badport", p=9, dn=False)
+      return "PortMod", dict(xid=x, kind="badport", p=rnd.choice([9, 9, 65534, 65535, 65532, 65533, 65531]), dn=False)
     return "PortMod", dict(xid=x, kind="badhw", p=1, dn=True)
   if k in (20, 21, 22, 23, 24, 25, 26):
     s = rnd.choice(["DESC", "FLOW", "FLOW", "AGGREGATE", "AGGREGATE", "TABLE", "TABLE", "PORT",
